@@ -9,8 +9,15 @@ def run(tier, seed):
     import contracts.inline as CI
     deductive(rep, "C09", CI.C09_FUNCS, "contracts.inline")
     deductive(rep, "C09", ["markdown_it.helpers.parse_link_title.parseLinkTitle"], "contracts.helpers")
-    from .. import reads
+    from .. import reads, casefold
+    from ..report import Ob
     reads.add_order_obligations(rep, "C09")
+    n, bad = casefold.whitespace_table_obligation()
+    rep.obs.append(Ob(oid="C09/markdown_it.common.utils.isWhiteSpace/ENUM/unicode-whitespace", kind="ENUM", func="markdown_it.common.utils.isWhiteSpace", backend="exhaustive-enumeration",
+                      verdict="discharged" if not bad else "failed", solver="complete enumeration on the real function", model=repr(bad),
+                      info=f"isWhiteSpace agrees with Unicode Zs + the ASCII controls on all {n} scalar values (flanking of delimiters next to format characters such as U+200B depends on it)" if not bad else f"isWhiteSpace disagrees with the Unicode whitespace class at {bad}"))
+    if bad:
+        rep.replays["C09/markdown_it.common.utils.isWhiteSpace/ENUM/unicode-whitespace"] = {"lifted": {"arguments": {"code_points": bad}}, "observed": {"outcome": "isWhiteSpace(cp) != (category Zs or listed control)"}, "replayed": True}
     gen_universe(rep, "vf.oracles2:c09_literal", "vf.oracles2:gen_c09", tier, "MarkdownIt.render", "esc(t) and charref(t) render as the literal, HTML-escaped t in 7 inline contexts",
                  ["commonmark", "cm+table+strike"], "all strings t of <= k characters over a 28-symbol alphabet (ASCII punctuation, letters, non-ASCII, C0), both encodings, 7 templates; distinct = distinct t",
                  "texts x {backslash, character reference} x {paragraph, heading, emphasis, link text, image alt, link title, table cell}")
